@@ -452,7 +452,7 @@ func (r *PxRun) call(fr *PxFrame, x *ssa.Call, b, prev *ssa.BasicBlock, i int, c
 		}
 	}
 	if target != nil && len(target.Blocks) > 0 && fr.Depth < r.cfg.MaxDepth &&
-		(target.Synthetic != "" || (r.cfg.Descend != nil && r.cfg.Descend(x, target))) {
+		((target.Synthetic != "" && !strings.HasPrefix(target.Synthetic, "instance of")) || (r.cfg.Descend != nil && r.cfg.Descend(x, target))) {
 		callee := newPxFrame(target, fr.Depth+1)
 		callee.run = r
 		callee.mem = fr.mem // one memory per path
